@@ -1234,3 +1234,53 @@ def ctrl12(ctx) -> List[Ob]:
                     else:
                         out.append(bad("CTRL-12", fn.qualname, key, ctx.where(fn, n), "groupby merges only adjacent entries and the entries are not sorted by the grouping key: a target selected by non-adjacent control values gets several groups (its region is generated twice / its row is split)"))
     return out
+
+
+# ------------------------------------------------------------------ CTRL-13
+
+
+@rule("CTRL-13", 2, "what loop restructuring reads from the graph after the headers were unified is computed after the unification (the inserted head and assignment blocks are part of the loop from then on)")
+def ctrl13(ctx) -> List[Ob]:
+    out: List[Ob] = []
+    fn = _helper(ctx)
+    cfg = ctx.cfg(fn)
+    G = fn.params[0].arg
+    unify = [z for z in cfg.nodes if z.stmt is not None and any(isinstance(k, ast.Call) and isinstance(k.func, ast.Attribute) and k.func.attr == "insert_block_and_control_blocks" for k in z.walk())]
+    if not unify:
+        raise AnalysisError("loop_restructure_helper: header unification call not found")
+
+    def reads_graph(e: ast.AST) -> bool:
+        for x in ast.walk(e):
+            if isinstance(x, ast.Subscript) and isinstance(x.value, ast.Name) and x.value.id == G:
+                return True
+            if isinstance(x, ast.Attribute) and isinstance(x.value, ast.Name) and x.value.id == G and x.attr not in ("name_gen",):
+                return True
+            if isinstance(x, ast.Call) and any(isinstance(a, ast.Name) and a.id == G for a in x.args):
+                return True
+        return False
+
+    for d in cfg.nodes:
+        st = d.stmt
+        if not isinstance(st, (ast.Assign, ast.AnnAssign)) or st.value is None or not reads_graph(st.value):
+            continue
+        tg = st.targets[0] if isinstance(st, ast.Assign) else st.target
+        names = [x.id for x in ast.walk(tg) if isinstance(x, ast.Name) and isinstance(x.ctx, ast.Store)]
+        if not names or isinstance(tg, ast.Subscript):
+            continue
+        key = "graph-derived: " + A.alpha_key(st)
+        where = ctx.where(fn, st)
+        later = [m for m in unify if m in cfg.reachable(d)]
+        stale_uses = []
+        for m in later:
+            after = cfg.reachable(m)
+            for u in A.walk_no_nested(fn.node):
+                if isinstance(u, ast.Name) and isinstance(u.ctx, ast.Load) and u.id in names:
+                    un = cfg.node_of(u)
+                    if un in after and d in cfg.reaching_defs(u):
+                        stale_uses.append(u)
+        if stale_uses:
+            out.append(bad("CTRL-13", fn.qualname, key, where, f"'{A.unparse(st)[:60]}' reads the graph before the headers are unified (line {later[0].lineno}) and {names} is used afterwards (line {A.lineno(stale_uses[0])}): blocks and arcs inserted by the unification are missing from it",
+                           [f"{len(stale_uses)} use(s) after the unification"]))
+        else:
+            out.append(ok("CTRL-13", fn.qualname, key, where, "not used across the header unification"))
+    return out
